@@ -17,7 +17,7 @@ Case format
   nsp      : number of Integer parameters v0.. of every source object
   src_init : [[int, ...], ...]             one row per source object S0, S1, ...
   targets  : [{"params": [pdecl, ...], "ctor": [[pidx, rhs], ...]}, ...]   target t has its own class T<t>
-     pdecl : {"kind": "int"|"pair", "lo": int|None, "hi": int|None, "default": val,
+     pdecl : {"kind": "int"|"pair"|"any" (param.Integer | param.Range | param.Parameter: no validation), "lo": int|None, "hi": int|None, "default": val,
               "constant": b, "readonly": b, "allow_refs": b, "nested_refs": b, "per_instance": b (default true;
               harness only: with per_instance=False the instance has no Parameter copy of its own, `t.param.p` is the
               class Parameter — values, links and watchers are per instance all the same, so the model is unchanged)}
@@ -32,6 +32,7 @@ Case format
      {"op":"lock","t":t,"p":p}                   t.param.p<p>.constant = True   (the instance's own Parameter copy)
      {"op":"trigger","t":t}                      t.e_ = True   (the Event fires its watchers and resets itself; a no-op for the model)
   rhs  : {"k":"atom","a":atom} | {"k":"cont","items":[atom, ...]}        a tuple of atoms
+       | {"k":"cont2","rows":[[atom, ...], ...]}                         a tuple of tuples of atoms (for kind "any")
        | {"k":"gen"}   the case's shared number generator (a plain callable, i.e. a Dynamic value; it is also the
                        value of the witness parameter W.a); only ever assigned where it must be rejected: a
                        readonly Integer parameter (callables bypass Number validation, the guard raises TypeError)
@@ -39,7 +40,11 @@ Case format
   (e_=True as first / last key); the model ignores it (no watcher on e_, it resets itself)
   atom : {"a":"lit","n":int} | {"a":"par","s":s,"i":i}                   S<s>.param.v<i>
        | {"a":"fn","deps":[[s,i],..],"k":int,"rx":bool,"sk":int|None}    bind(lambda *a: k+sum(a), deps…) or the rx expression k + dep.rx() + …;
-                                                                         sk: the bound function raises param.Skip when k+sum(a) < sk
+                                                                         sk: the bound function raises param.Skip when k+sum(a) < sk;
+                                                                         "shape" (harness only): pos | kw | nested | nestedkw | dep | nesteddep |
+                                                                         nestedkwdep — how the
+                                                                         function is bound (positional / keyword Parameters, a bound
+                                                                         function as positional / keyword argument); same value
   val  : int | [int, ...]
 
 Observation: {"ctor_err": null | name, "init": state, "steps": [state + {"err":…, "log":[…]}, …]}
@@ -69,16 +74,26 @@ def _err_name(e):
     return 'other:' + type(e).__name__
 
 
+UNRESOLVED = -424242      # stands for "an object that is no integer" (e.g. a reference left unresolved inside a value)
+
+
+def _jint(x):
+    return UNRESOLVED if isinstance(x, bool) or not isinstance(x, int) else x
+
+
 def _jval(v):
     if isinstance(v, bool) or not isinstance(v, (int, tuple, list)):
-        raise RuntimeError(f'unexpected value {v!r}')
+        return UNRESOLVED
     if isinstance(v, int):
         return v
     out = []
     for x in v:
-        if isinstance(x, bool) or not isinstance(x, int):
-            raise RuntimeError(f'unexpected item {x!r}')
-        out.append(x)
+        if isinstance(x, (tuple, list)):
+            out.append([_jint(y) for y in x])
+        else:
+            out.append(_jint(x))
+    if any(isinstance(x, list) for x in out) and not all(isinstance(x, list) for x in out):
+        out = [x if isinstance(x, list) else [x] for x in out]
     return out
 
 
@@ -86,14 +101,22 @@ def _atom_is_lit(a):
     return a['a'] == 'lit'
 
 
+def rhs_atoms(rhs):
+    if rhs['k'] == 'atom':
+        return [rhs['a']]
+    if rhs['k'] == 'cont':
+        return list(rhs['items'])
+    return [a for row in rhs['rows'] for a in row]
+
+
 def rhs_is_lit(rhs):
     if rhs['k'] == 'gen':
         return False
-    return _atom_is_lit(rhs['a']) if rhs['k'] == 'atom' else all(_atom_is_lit(a) for a in rhs['items'])
+    return all(_atom_is_lit(a) for a in rhs_atoms(rhs))
 
 
 def rhs_supported(rhs):
-    atoms = [rhs['a']] if rhs['k'] == 'atom' else rhs['items']
+    atoms = rhs_atoms(rhs)
     return not any(a['a'] == 'fn' and not a['deps'] for a in atoms)
 
 
@@ -108,7 +131,10 @@ def key_supported(tdecl, p, rhs):
         return gen_supported(tdecl, p)
     if p >= len(tdecl['params']):
         return rhs_is_lit(rhs)
-    return rhs_supported(rhs) and (tdecl['params'][p]['allow_refs'] or rhs_is_lit(rhs))
+    pd = tdecl['params'][p]
+    has_deps = (rhs['k'] == 'atom' or pd['nested_refs']) and any(a['a'] != 'lit' for a in rhs_atoms(rhs))
+    # (an unvalidated parameter would store a container that still holds reference objects)
+    return rhs_supported(rhs) and (pd['allow_refs'] or rhs_is_lit(rhs)) and (pd['kind'] != 'any' or rhs_is_lit(rhs) or has_deps)
 
 
 def _norm_atom(a):
@@ -124,6 +150,8 @@ def norm_rhs(rhs):
         return rhs
     if rhs['k'] == 'atom':
         return {'k': 'atom', 'a': _norm_atom(rhs['a'])}
+    if rhs['k'] == 'cont2':
+        return {'k': 'cont2', 'rows': [[_norm_atom(a) for a in row] for row in rhs['rows']]}
     return {'k': 'cont', 'items': [_norm_atom(a) for a in rhs['items']]}
 
 
@@ -172,7 +200,11 @@ class Runner:
             for i, pd in enumerate(td['params']):
                 kw = dict(bounds=(pd['lo'], pd['hi']), constant=pd['constant'], readonly=pd['readonly'],
                           allow_refs=pd['allow_refs'], nested_refs=pd['nested_refs'], per_instance=pd.get('per_instance', True))
-                if pd['kind'] == 'int':
+                if pd['kind'] == 'any':
+                    kw.pop('bounds')
+                    d = pd['default']
+                    ns[f'p{i}'] = param.Parameter(default=d if isinstance(d, int) else tuple(tuple(x) if isinstance(x, list) else x for x in d), **kw)
+                elif pd['kind'] == 'int':
                     ns[f'p{i}'] = Int_(default=pd['default'], **kw)
                 else:
                     ns[f'p{i}'] = Range_(default=tuple(pd['default']), **kw)
@@ -259,32 +291,49 @@ class Runner:
         deps = [self.srcs[s].param[self.snames[i]] for s, i in a['deps']]
         k = a['k']
         sk = a.get('sk')
-        if sk is not None:
-            Skip = self.param.parameterized.Skip
-
-            def f(*xs, _k=k, _sk=sk):
-                if _k + sum(xs) < _sk:
-                    raise Skip()
-                return _k + sum(xs)
-            return self.param.bind(f, *deps)
-        if a.get('rx') and deps:
+        if a.get('rx') and deps and sk is None:
             e = deps[0].rx()
             for d in deps[1:]:
                 e = e + d.rx()
             return e + k
-        return self.param.bind(lambda *xs, _k=k: _k + sum(xs), *deps)
+        Skip = self.param.parameterized.Skip
+        bind = self.param.bind
+
+        def result(total, _k=k, _sk=sk):
+            if _sk is not None and _k + total < _sk:
+                raise Skip()
+            return _k + total
+        # the same function k + sum(dependencies), bound in the different ways `bind` records dependencies:
+        # positional Parameters, keyword Parameters, a bound function as positional / keyword argument
+        shape = a.get('shape', 'pos') if deps else 'pos'
+        if shape == 'kw':
+            return bind(lambda **kw: result(sum(kw.values())), **{f'x{j}': d for j, d in enumerate(deps)})
+        if shape == 'dep':             # a function decorated with param.depends(<Parameters>) is a reference itself
+            return self.param.depends(*deps)(lambda *xs: result(sum(xs)))
+        if shape in ('nested', 'nestedkw', 'nesteddep', 'nestedkwdep'):
+            rest = deps[1:] or deps[:1]
+            scale = 1 if len(deps) > 1 else 0
+            if shape.endswith('dep'):   # the inner function records its dependencies positionally (depends), not by keyword (bind)
+                inner = self.param.depends(*rest)(lambda *xs: scale * sum(xs))
+            else:
+                inner = bind(lambda *xs: scale * sum(xs), *rest)
+            if shape in ('nested', 'nesteddep'):
+                return bind(lambda a, b: result(a + b), deps[0], inner)
+            return bind(lambda a=0, b=0: result(a + b), a=deps[0], b=inner)
+        return bind(lambda *xs: result(sum(xs)), *deps)
 
     def mk_rhs(self, rhs):
-        rhs = norm_rhs(rhs)
         if rhs['k'] == 'gen':
             return self.gen
         if rhs['k'] == 'atom':
             o = self.mk_atom(rhs['a'])
+        elif rhs['k'] == 'cont2':
+            o = tuple(tuple(self.mk_atom(a) for a in row) for row in rhs['rows'])
         else:
             o = tuple(self.mk_atom(a) for a in rhs['items'])
         if not isinstance(o, int):
             self.keep.append(o)
-            self.refdesc[id(o)] = rhs
+            self.refdesc[id(o)] = norm_rhs(rhs)      # (the way the function was bound is not part of the description)
         return o
 
     # -- observation --------------------------------------------------------
@@ -453,7 +502,7 @@ def rhs_skips(rhs, src, nested):
     """does resolving the reference raise Skip on these source values"""
     if rhs['k'] == 'atom':
         return _atom_skips(rhs['a'], src)
-    return nested and any(_atom_skips(a, src) for a in rhs['items'])
+    return nested and any(_atom_skips(a, src) for a in rhs_atoms(rhs))
 
 
 def applied_prefix(case, t, kvs, st, src_before):
@@ -528,18 +577,25 @@ def par(s, i):
     return {'k': 'atom', 'a': {'a': 'par', 's': s, 'i': i}}
 
 
-def fn(deps, k, rx=False, sk=None):
-    return {'k': 'atom', 'a': {'a': 'fn', 'deps': [list(d) for d in deps], 'k': k, 'rx': rx and sk is None, 'sk': sk}}
+SHAPES = ('pos', 'kw', 'nested', 'nestedkw', 'dep', 'nesteddep', 'nestedkwdep')
+
+
+def fn(deps, k, rx=False, sk=None, shape='pos'):
+    return {'k': 'atom', 'a': {'a': 'fn', 'deps': [list(d) for d in deps], 'k': k, 'rx': rx and sk is None, 'sk': sk, 'shape': shape}}
 
 
 def cont(*items):
     return {'k': 'cont', 'items': [x['a'] for x in items]}
 
 
+def cont2(*rows):
+    return {'k': 'cont2', 'rows': [[x['a'] for x in row] for row in rows]}
+
+
 # the standard target: p0 bounded int, p1 free int, p2 bounded pair with nested refs, p3 bounded constant int,
 # p4 read-only int, p5 int without allow_refs
 STD = [P(lo=0, hi=10), P(), P('pair', 0, 10, nested_refs=True), P(lo=0, hi=10, constant=True, default=1),
-       P(readonly=True, default=2), P(lo=0, hi=10, allow_refs=False)]
+       P(readonly=True, default=2), P(lo=0, hi=10, allow_refs=False), P('any', nested_refs=True, default=0)]
 
 
 def ev_atom(a, src):
@@ -555,6 +611,8 @@ def ev_rhs(rhs, src, nested):
     if rhs['k'] == 'atom':
         return ev_atom(rhs['a'], src)
     if nested or rhs_is_lit(rhs):
+        if rhs['k'] == 'cont2':
+            return [[ev_atom(a, src) for a in row] for row in rhs['rows']]
         return [ev_atom(a, src) for a in rhs['items']]
     return None
 
@@ -562,6 +620,10 @@ def ev_rhs(rhs, src, nested):
 def val_ok(pd, v):
     inb = lambda n: (pd['lo'] is None or pd['lo'] <= n) and (pd['hi'] is None or n <= pd['hi'])
     if v is None:
+        return False
+    if pd['kind'] == 'any':
+        return True
+    if v and isinstance(v, list) and isinstance(v[0], list):
         return False
     if isinstance(v, int):
         return pd['kind'] == 'int' and inb(v)
@@ -583,11 +645,20 @@ def rand_ref(rng, nsrc, nsp, pd, src, want_valid=True, tries=12):
         # one in four bound functions raises Skip below a threshold near its current value
         if rng.random() < 0.25:
             now = k + sum(src[s][i] for s, i in deps)
-            return fn(deps, k, False, now + rng.choice([1, 2, 0, -1, -2]))
-        return fn(deps, k, rng.random() < 0.5)
+            return fn(deps, k, False, now + rng.choice([1, 2, 0, -1, -2]), shape=rng.choice(SHAPES))
+        return fn(deps, k, rng.random() < 0.5, shape=rng.choice(SHAPES))
     for _ in range(tries):
         sp = lambda: (rng.randrange(nsrc), rng.randrange(nsp))
-        if pd['kind'] == 'pair' and pd['nested_refs']:
+        if pd['kind'] == 'any' and pd['nested_refs'] and rng.random() < 0.6:
+            def one():
+                r = rng.random()
+                return lit(rng.randint(0, 6)) if r < 0.3 else par(*sp()) if r < 0.7 else \
+                    mk_fn([sp() for _ in range(rng.randint(1, 2))], rng.randint(-1, 2))
+            rows = [[one() for _ in range(rng.randint(1, 2))] for _ in range(rng.randint(1, 2))]
+            if all(x['a']['a'] == 'lit' for row in rows for x in row):
+                rows[0][0] = par(*sp())
+            r = cont2(*rows)
+        elif pd['kind'] == 'pair' and pd['nested_refs']:
             def atom():
                 r = rng.random()
                 if r < 0.3:
@@ -612,6 +683,8 @@ def rand_ref(rng, nsrc, nsp, pd, src, want_valid=True, tries=12):
 
 
 def rand_plain(rng, pd, want_valid=True):
+    if pd['kind'] == 'any':        # anything is valid
+        return rng.choice([lit(rng.randint(0, 9)), cont(lit(1), lit(rng.randint(0, 9))), cont2([lit(1)], [lit(2), lit(rng.randint(0, 9))])])
     if pd['kind'] == 'pair':
         v = [rng.randint(0, 9), rng.randint(0, 9)] if want_valid else rng.choice([[50, 1], [1, -7], [1, 2, 3], [4]])
         return cont(*[lit(x) for x in v])
@@ -698,7 +771,7 @@ def rejected_op(rng, targets, src, nsrc, nsp, kind, route, t=None, prefer=None):
         c = [i for i, pd in enumerate(pds) if f(pd)]
         return [prefer] if prefer in c else c
     if kind == 'plain':
-        c = pick(lambda pd: not pd['constant'] and not pd['readonly'])
+        c = pick(lambda pd: not pd['constant'] and not pd['readonly'] and pd['kind'] != 'any')
         if not c:
             return None
         p = rng.choice(c)
@@ -923,10 +996,13 @@ def tags(case, impl):
 def rhs_kind(rhs):
     if rhs['k'] == 'gen':
         return 'gen'
+    if rhs['k'] == 'cont2':
+        return 'plainnest' if rhs_is_lit(rhs) else 'nested2'
     if rhs['k'] == 'cont':
         return 'plainpair' if rhs_is_lit(rhs) else 'nested'
     a = rhs['a']
-    return {'lit': 'plain', 'par': 'par'}.get(a['a']) or ('skipfn' if a.get('sk') is not None else 'rx' if a.get('rx') else 'fn')
+    return {'lit': 'plain', 'par': 'par'}.get(a['a']) or ('skipfn' if a.get('sk') is not None else 'rx' if a.get('rx') else
+                                                           'fn' if a.get('shape', 'pos') == 'pos' else 'fn-' + a['shape'])
 
 
 def shrink(case):
